@@ -222,10 +222,88 @@ func vrBuild(t int) vrCase {
 		}
 		return vrCase{vrMain("  let g = fn()" + decl + " {\n" + body + "  };\n  g();\n"), t1 != 4, "bare-return in closure ->" + vrTypes[t1] + " @" + vrPositions[pos], ""}
 	}
+	switch t {
+	case 19: // match: arm literal type vs subject type, arm result types among each other
+		ts, tl, r1, r2 := nd("subject", 0, 3), nd("literal", 0, 3), nd("r1", 0, 3), nd("r2", 0, 3)
+		code := vrMain("  let v = match " + vrLits[ts] + " {\n    " + vrLits[tl] + " => " + vrLits[r1] + ",\n    _ => " + vrLits[r2] + ",\n  };\n  println(v);\n")
+		return vrCase{code, ts != tl || r1 != r2, "match " + vrTypes[ts] + " arm " + vrTypes[tl] + " results " + vrTypes[r1] + "/" + vrTypes[r2], ""}
+	case 20: // argument types of builtin members
+		m, ta := nd("member", 0, 3), nd("arg", 0, 5)
+		calls := []string{"\"s\".repeat(%A)", "[1, 2].contains(%A)", "\"a,b\".split(%A)", "[1.5].contains(%A)"}
+		want := []int{0, 0, 3, 1}[m]
+		call := vsReplaceArg(calls[m], vrLits[ta])
+		return vrCase{vrMain("  println(" + call + ");\n"), ta != want, "member-argument " + calls[m] + " <- " + vrTypes[ta], ""}
+	case 21: // closure call: arity and argument type
+		np, na, ta := nd("np", 0, 2), nd("na", 0, 2), nd("arg", 0, 3)
+		params, args, body := "", "", "0"
+		for i := 0; i < np; i++ {
+			if i > 0 {
+				params += ", "
+			}
+			params += fmt.Sprintf("p%d: int", i)
+			body = "p0"
+		}
+		for i := 0; i < na; i++ {
+			if i > 0 {
+				args += ", "
+			}
+			if i == 0 {
+				args += vrLits[ta]
+			} else {
+				args += "1"
+			}
+		}
+		code := vrMain("  let f = fn(" + params + ") -> int { " + body + " };\n  println(f(" + args + "));\n")
+		return vrCase{code, np != na || (na > 0 && ta != 0), fmt.Sprintf("closure-call %d/%d first arg %s", np, na, vrTypes[ta]), ""}
+	case 22: // options: unwrap_or argument, option used where its inner type is expected
+		kind, ta := nd("kind", 0, 2), nd("arg", 0, 3)
+		progs := []string{
+			"  let o: ?int = ?1;\n  println(o.unwrap_or(" + vrLits[ta] + "));\n",
+			"  let o: ?int = ?1;\n  let n: " + vrTypes[ta] + " = o.unwrap();\n  println(n);\n",
+			"  let o = ?" + vrLits[ta] + ";\n  let n: int = o;\n  println(n);\n",
+		}
+		faulty := []bool{ta != 0, ta != 0, true}[kind]
+		return vrCase{vrMain(progs[kind]), faulty, fmt.Sprintf("option kind%d %s", kind, vrTypes[ta]), ""}
+	case 23: // range bounds and index types
+		kind, t1, t2 := nd("kind", 0, 2), nd("t1", 0, 3), nd("t2", 0, 3)
+		progs := []string{
+			"  for i in " + vrLits[t1] + ".." + vrLits[t2] + " { println(i); }\n",
+			"  let l = [1, 2];\n  println(l[" + vrLits[t1] + "]);\n",
+			"  let s = \"ab\";\n  println(s[" + vrLits[t1] + "]);\n",
+		}
+		faulty := []bool{t1 != 0 || t2 != 0, t1 != 0, t1 != 0}[kind]
+		if kind != 0 && t2 != 0 {
+			t2 = 0
+		}
+		return vrCase{vrMain(progs[kind]), faulty, fmt.Sprintf("range/index kind%d %s %s", kind, vrTypes[t1], vrTypes[t2]), ""}
+	case 24: // spawn arguments, object member access
+		kind, ta := nd("kind", 0, 2), nd("arg", 0, 3)
+		progs := []string{
+			"fn w(a: int) { println(a); }\n" + vrMain("  spawn w("+vrLits[ta]+");\n"),
+			"fn w(a: int) { println(a); }\n" + vrMain("  spawn w(1, "+vrLits[ta]+");\n"),
+			vrMain("  let o = new { a: 1 };\n  let x: " + vrTypes[ta] + " = o.a;\n  println(x, o.a);\n"),
+		}
+		faulty := []bool{ta != 0, true, ta != 0}[kind]
+		return vrCase{progs[kind], faulty, fmt.Sprintf("spawn/member kind%d %s", kind, vrTypes[ta]), ""}
+	}
 	return vrCase{vrMain("  println(1);\n"), false, "trivial", ""}
 }
 
-const vrTemplates = 19
+// vsReplaceArg replaces %A in a call template.
+func vsReplaceArg(tmpl, arg string) string {
+	out := ""
+	for i := 0; i < len(tmpl); i++ {
+		if tmpl[i] == '%' && i+1 < len(tmpl) && tmpl[i+1] == 'A' {
+			out += arg
+			i++
+			continue
+		}
+		out += string(tmpl[i])
+	}
+	return out
+}
+
+const vrTemplates = 25
 
 func VerifHarness_Rules() {
 	t := errors.VerifNdIntRange("template", 0, vrTemplates-1)
